@@ -30,6 +30,9 @@ def run(tier, rng, C):
         elif rng.random() < 0.2:
             miss = rng.choice(['extra\n', 'opt\nional', 'zz.mis\nsing', 'tab\tbed', 'sp ace'])     # e.g. from a YAML block scalar entry
             tw.universe.add(miss)
+        elif rng.random() < 0.1:
+            miss = ''                  # the class with the empty name (classes/init.yml would define it)
+            tw.universe.add(miss)
         holders = sorted(tw.classes) + [node]
         hs = rng.sample(holders, min(len(holders), rng.choice([1, 1, 2, 3])))   # the same missing class from several places
         if rng.random() < 0.4 and node not in hs:
